@@ -48,6 +48,8 @@ package migrate
 //@   pure
 //@ extern func (l Logger) Log(en LogEntry)
 //@ ghost var GvcHData GvcArr[hash.Hash, string]
+//@ ghost var GvcHWrites int
+//@ ghost var GvcHLast string
 //@ spec func specSha(data string) string { panic("uninterpreted") }
 //@ spec func specB64(raw string) string { panic("uninterpreted") }
 //@ func specSha(data string) (s string)
@@ -57,7 +59,7 @@ package migrate
 //@   trusted
 //@   pure
 //@ extern func (h hash.Hash) Write(p []byte) (n int, err error)
-//@   effect GvcHData = GvcAset(GvcHData, h, GvcAget(GvcHData, h)+string(p))
+//@   effect GvcHData = GvcAset(GvcHData, h, GvcAget(GvcHData, h)+string(p)); GvcHWrites++; GvcHLast = string(p)
 //@   ensures err == nil
 //@ extern func (h hash.Hash) Sum(b []byte) (r []byte)
 //@   ensures b == nil ==> string(r) == specSha(GvcAget(GvcHData, h))
@@ -90,7 +92,7 @@ package migrate
 //@ func (e *Executor) Execute(ctx context.Context, m File) (err error)
 //@   requires e != nil && m != nil && e.dir != nil && e.rrw != nil && e.log != nil && e.drv != nil
 //@   requires GvcExec.N >= 0
-//@   modifies struct(Revision), heap(E_string), GvcExec, GvcStore, GvcWrites, GvcHData, GvcChecksumErr, GvcChecksumCalls, GvcChecksumAt, GvcComputedSum
+//@   modifies struct(Revision), heap(E_string), GvcExec, GvcStore, GvcWrites, GvcHData, GvcHWrites, GvcHLast, GvcChecksumErr, GvcChecksumCalls, GvcChecksumAt, GvcComputedSum
 //@   ensures trace-prefix-kept: GvcExec.N >= old(GvcExec.N) &&
 //@           (forall j int :: 0 <= j && j < old(GvcExec.N) ==> GvcAt(GvcExec, j) == old[string](GvcAt(GvcExec, j)))
 //@   ensures in-order-once: gvcK0(old(gvcHas(m.Version())), old(gvcRev(m.Version()))) + GvcExec.N - old(GvcExec.N) <= len(gvcStmts(e, m)) || GvcExec.N == old(GvcExec.N)
@@ -353,6 +355,13 @@ package migrate
 //@ spec 	}
 //@ spec 	return GvcCum(files, n-1) + files[n-1].Name() + string(files[n-1].Bytes())
 //@ spec }
+//@ spec func gvcChunkAfter(files []File, n int) string {
+//@ spec 	if GvcSumIgnored(files[n-1]) {
+//@ spec 		return files[n-1].Name()
+//@ spec 	}
+//@ spec 	return string(files[n-1].Bytes())
+//@ spec }
+//@ spec func gvcLastChunk(files []File) string { return gvcChunkAfter(files, len(files)) }
 //@ rec GvcCntH
 //@ spec func GvcCntH(files []File, n int) int {
 //@ spec 	if n <= 0 {
@@ -366,7 +375,9 @@ package migrate
 
 //@ func NewHashFile(files []File) (hs HashFile, err error)
 //@   requires (forall i int :: 0 <= i && i < len(files) ==> files[i] != nil)
-//@   modifies GvcHData
+//@   modifies GvcHData, GvcHWrites, GvcHLast
+//@   ensures every-name-and-every-unignored-content-is-hashed: GvcHWrites == old(GvcHWrites) + len(files) + old(GvcCntH(files, len(files)))
+//@   ensures last-chunk: len(files) > 0 ==> GvcHLast == old(gvcLastChunk(files))
 //@   ensures never-fails: err == nil
 //@   ensures one-entry-per-hashed-file: len(hs) == old(GvcCntH(files, len(files)))
 //@   ensures entry-names: (forall i int :: 0 <= i && i < len(files) && !old(GvcSumIgnored(files[i])) ==>
@@ -374,6 +385,8 @@ package migrate
 //@           hs[old(GvcCntH(files, i))].N == old(files[i].Name()))
 //@   loop 1 freshwrites
 //@   loop 1 invariant 0 <= loopk && loopk <= len(files) && len(hs) == old(GvcCntH(files, loopk)) && (hs == nil || GvcLoopFresh(hs))
+//@   loop 1 invariant GvcHWrites == old(GvcHWrites) + loopk + old(GvcCntH(files, loopk))
+//@   loop 1 invariant loopk > 0 ==> GvcHLast == old(gvcChunkAfter(files, loopk))
 //@   loop 1 invariant (forall i int :: 0 <= i && i < loopk && !old(GvcSumIgnored(files[i])) ==>
 //@           0 <= old(GvcCntH(files, i)) && old(GvcCntH(files, i)) < len(hs))
 //@   loop 1 invariant (forall i int :: 0 <= i && i < loopk && !old(GvcSumIgnored(files[i])) ==>
